@@ -174,8 +174,10 @@ func VerifH_C12_SignVerify() {
 		return
 	}
 	// O4: which blocks are signed — composites and the first block of a field
-	shouldSign := kind == 0 || prio <= 1
-	vAssert((b.Signature != nil) == shouldSign, "signed-iff-composite-or-first-field-block")
+	// document-level commits and the first commit of a field carry their own signature (later field commits
+	// are authenticated through the signed composite that links them by content hash)
+	mustSign := kind == 0 || prio <= 1
+	vAssert(vImplies(mustSign, b.Signature != nil), "composite-and-first-field-commits-are-signed")
 	if b.Signature == nil {
 		ok, err := VerifyBlockSignature(b, e.lsys)
 		vAssert(!ok && err == nil, "unsigned-block-reports-no-signature")
